@@ -32,6 +32,8 @@ def make_cases(chk):
             b.append(3 * b[1])
             A.insert(0, list(A[1]))
             b.insert(0, b[1])
+            A = [[FR(float(v)) for v in r] for r in A]      # the library sees the f64 rounding
+            b = [FR(float(v)) for v in b]
         cases.append({"id": "r%d" % i, "steps": [{"op": "redundant", "poly": aff_json(A, b, n)}], "A": A, "b": b,
                       "meta": {"category": cat, "n": n, "rows": len(A)}})
     return cases
